@@ -7,4 +7,4 @@ def run(tier):
         "every construct with >= 2 sub-expressions x operand forms (tick / literal) x context (top level, "
         "function body); a case is distinct by its rendered source text; non-trivial = accepted by the "
         "checker and executed; compared: result value and the log of tick numbers",
-        ["tick functions t_k(i, v) { log += [i]; return v } make evaluation observable"])
+        ["tick functions t_k(i, v) { log += [i]; return v } make evaluation observable"], gen=3000)
